@@ -546,7 +546,7 @@ ChFromNdarray ==
         \E pert \in Perts(s), c \in {0, 4}, qg \in BOOLEAN, ra \in BOOLEAN, dt \in Dtypes(T(s)), lab \in BOOLEAN :
             /\ (qg \/ DetectDefined(M(s), Perturbed(T(s).val, pert), T(s).legs))
             /\ (dt # "none" => pert.n = 0)
-            /\ (pert.n = 0 => c = 0 /\ ra)
+            /\ (pert.n = 0 => c = 0 /\ ra) /\ (c # 0 => ra)
             /\ (lab => pert.n = 0)
             /\ Choose([op |-> "from_ndarray", a |-> s, par |-> [pert |-> pert, cut |-> c, qgiven |-> qg, raise |-> ra, dtype |-> dt,
                                                                  labels |-> IF lab THEN FreshLabels(R(s)) ELSE T(s).labels]])
@@ -589,7 +589,7 @@ ChChinfoOp == CanChoose("ChinfoOp") /\ \E s, b \in U : \E what \in {"add", "drop
                  /\ (what = "add" => k = 0 /\ nm = 1) /\ (what # "add" => b = s) /\ (what = "drop" => nm = 1) /\ (what = "change" => k >= 1)
                  /\ Choose([op |-> "chinfo", a |-> s, b |-> b, what |-> what, k |-> k, newmod |-> nm])
 ChLegOp == CanChoose("LegOp") /\ \E s \in U : Plain(s) /\ \E x \in 1..R(s) :
-              \/ \E b \in U : \E y \in 1..R(b) : Plain(b) /\ Len(M(s)) + Len(M(b)) <= 4 /\ Choose([op |-> "leg", a |-> s, x |-> x, what |-> "from_add_charge", b |-> b, y |-> y, k |-> 0, newmod |-> 1, byname |-> FALSE])
+              \/ \E b \in U : \E y \in {IMin(x, R(b)), (x % R(b)) + 1} : Plain(b) /\ Len(M(s)) + Len(M(b)) <= 4 /\ Choose([op |-> "leg", a |-> s, x |-> x, what |-> "from_add_charge", b |-> b, y |-> y, k |-> 0, newmod |-> 1, byname |-> FALSE])
               \/ \E k \in 0..Len(M(s)), bn \in BOOLEAN : (bn => NameUsable(T(s), k)) /\
                     Choose([op |-> "leg", a |-> s, x |-> x, what |-> "from_drop_charge", b |-> s, y |-> x, k |-> k, newmod |-> 1, byname |-> bn])
               \/ \E k \in 1..Len(M(s)), nm \in {2, 3}, bn \in BOOLEAN : (bn => NameUsable(T(s), k)) /\ nm # M(s)[k] /\
@@ -617,7 +617,7 @@ ChGridOuter == CanChoose("GridOuter") /\ \E a, b \in U : SameLegs(a, b) /\ Plain
                           lab == qg
                           Q == IF (qc = 1) = qg THEN T(a).qtotal ELSE N(M(a))!QAdd(T(b).qtotal, T(b).qtotal)
                       IN /\ R(a) + Len(pat) <= MaxRank
-                         /\ (\E i \in 1..Len(pat) : \E j \in 1..Len(pat[i]) : pat[i][j] = 2) => a # b
+                         /\ (\E i \in 1..Len(pat) : \E j \in 1..Len(pat[i]) : pat[i][j] = 2) = (a # b)
                          /\ Choose([op |-> "grid_outer", grid |-> grid, a |-> a, b |-> b, Q |-> Q, qconjr |-> -qc, qconj |-> qc, qgiven |-> qg,
                                     glabels |-> IF Len(pat) = 1 THEN <<IF lab THEN Lab("g") ELSE L!NoneLabel>>
                                                 ELSE <<IF lab THEN Lab("g") ELSE L!NoneLabel, Lab("h")>>])
@@ -626,12 +626,13 @@ UnknownLabel == Lab("zz")
 ArgsFor(t) == {IntArg(i) : i \in (-Len(t.legs) - 1)..(Len(t.legs) + 1)} \cup {LabArg(t.labels[a]) : a \in {a \in 1..Len(t.legs) : t.labels[a] # L!NoneLabel}}
               \cup {LabArg(UnknownLabel)}
 ChGetLegIndex == CanChoose("GetLegIndex") /\ \E s \in U : \E arg \in ArgsFor(T(s)) : Choose([op |-> "get_leg_index", a |-> s, arg |-> arg])
-ChGetLegIndices == CanChoose("GetLegIndices") /\ \E s \in U : \E bl \in BOOLEAN, bad \in {"no", "unknown", "range"}, p \in Perms(R(s)) :
+TwoPerms(n) == {[i \in 1..n |-> i], [i \in 1..n |-> n + 1 - i], [i \in 1..n |-> (i % n) + 1]}
+ChGetLegIndices == CanChoose("GetLegIndices") /\ \E s \in U : \E bl \in BOOLEAN, bad \in {"no", "unknown", "range"}, p \in TwoPerms(R(s)) :
                       LET good == [j \in 1..R(s) |-> ArgOf(T(s), p[j], bl)] IN
                       (bad # "no" => bl) /\ Choose([op |-> "get_leg_indices", a |-> s,
                               args |-> CASE bad = "no" -> good [] bad = "unknown" -> Append(good, LabArg(UnknownLabel)) [] OTHER -> <<IntArg(R(s) + 1)>> \o good])
 LabelPool == {Lab("a"), Lab("b"), Lab("k"), <<"a", "*">>, L!NoneLabel}
-ChISetLegLabels == CanChoose("ISetLegLabels") /\ \E s \in U : \E kind \in {"ok", "dup", "short", "empty", "none"}, p \in Perms(R(s)) :
+ChISetLegLabels == CanChoose("ISetLegLabels") /\ \E s \in U : \E kind \in {"ok", "dup", "short", "empty", "none"}, p \in TwoPerms(R(s)) :
                       LET base == [a \in 1..R(s) |-> Lab(<<"k", "l", "m", "n", "o">>[p[a]])]
                           labels == CASE kind = "ok" -> SetAt(base, 1, <<"l", "*">>)
                                       [] kind = "dup" -> IF R(s) >= 2 THEN SetAt(base, R(s), base[1]) ELSE <<>>
@@ -643,7 +644,7 @@ ChReplaceLabels == CanChoose("ReplaceLabels") /\ \E s \in U : \E inpl \in BOOLEA
                       \/ \E x \in 1..R(s), new \in {Lab("k"), Lab("a"), Lab("b"), <<"a", "*">>} :      \* (i)replace_label
                             Choose([op |-> "replace_labels", a |-> s, olds |-> <<ArgOf(T(s), x, bl)>>, news |-> <<new>>, inpl |-> inpl, single |-> TRUE])
                       \/ Choose([op |-> "replace_labels", a |-> s, olds |-> <<LabArg(UnknownLabel)>>, news |-> <<Lab("k")>>, inpl |-> inpl, single |-> bl])
-                      \/ R(s) >= 2 /\ bl = inpl /\ \E x, y \in 1..R(s) : x # y /\ \E news \in {<<Lab("k"), Lab("m")>>, <<Lab("k"), Lab("k")>>, <<T(s).labels[y], T(s).labels[x]>>, <<Lab("a"), Lab("b")>>} :
+                      \/ R(s) >= 2 /\ bl = inpl /\ \E x, y \in 1..R(s) : x # y /\ \E news \in {<<Lab("k"), Lab("k")>>, <<T(s).labels[y], T(s).labels[x]>>, <<Lab("a"), Lab("b")>>} :
                             /\ \A j \in 1..2 : news[j] # L!NoneLabel
                             /\ Choose([op |-> "replace_labels", a |-> s, olds |-> <<ArgOf(T(s), x, bl), ArgOf(T(s), y, bl)>>, news |-> news, inpl |-> inpl, single |-> FALSE])
 ChIDropLabels == CanChoose("IDropLabels") /\ \E s \in U :
@@ -655,7 +656,7 @@ ChHasLabel == CanChoose("HasLabel") /\ \E s \in U :
                  \/ Choose([op |-> "get_leg_labels", a |-> s])
 ChTransposeL == CanChoose("TransposeL") /\ \E s \in U : \E p \in Perms(R(s)), bl \in BOOLEAN, bad \in {"no", "dup", "short", "unknown"} :
                    LET good == [j \in 1..R(s) |-> ArgOf(T(s), p[j], bl)] IN
-                   /\ (bad # "no" => bl)
+                   /\ (bad # "no" => bl /\ p \in TwoPerms(R(s)))
                    /\ Choose([op |-> "transpose_l", a |-> s,
                               args |-> CASE bad = "no" -> good [] bad = "dup" -> SetAt(good, R(s), good[1]) [] bad = "short" -> Tail(good)
                                          [] OTHER -> SetAt(good, 1, LabArg(UnknownLabel))])
@@ -664,7 +665,7 @@ ChTensordotL == CanChoose("TensordotL") /\ \E a, b \in U : SameCI(a, b) /\ \E k 
                        /\ R(a) + R(b) - 2 * k <= MaxRank
                        /\ (bad = "charge") = ~N(M(a))!CanTensordot(Core(T(a)), Core(T(b)), axa, axb)
                        /\ (bad = "charge" => k = 1 /\ L!IndLen(T(a).legs[axa[1]]) = L!IndLen(T(b).legs[axb[1]]))
-                       /\ (bad = "unknown" => k = 1)
+                       /\ (bad = "unknown" => k = 1) /\ (k = 2 => axa[1] < axa[2])
                        /\ Choose([op |-> "tensordot_l", a |-> a, b |-> b,
                                   la |-> [j \in 1..k |-> IF bad = "unknown" /\ j = 1 THEN LabArg(UnknownLabel) ELSE ArgOf(T(a), axa[j], TRUE)],
                                   lb |-> [j \in 1..k |-> ArgOf(T(b), axb[j], TRUE)]])
@@ -679,7 +680,7 @@ ChTraceL == CanChoose("TraceL") /\ \E s \in U : R(s) >= 2 /\ \E x, y \in 1..R(s)
                /\ (x = y \/ L!IndLen(T(s).legs[x]) = L!IndLen(T(s).legs[y]))
                /\ Choose([op |-> "trace_l", a |-> s, a1 |-> ArgOf(T(s), x, bl), a2 |-> ArgOf(T(s), y, TRUE)])
 ChCombineL == CanChoose("CombineL") /\ \E s \in U : R(s) >= 2 /\ \E k \in 2..3 : k <= R(s) /\ \E g \in InjSeqs(R(s), k), qc \in {1, -1}, bad \in BOOLEAN :
-                 (bad => qc = 1) /\ Choose([op |-> "combine_legs_l", a |-> s, qconj |-> qc,
+                 (bad => qc = 1) /\ (qc = -1 => g[1] < g[2]) /\ Choose([op |-> "combine_legs_l", a |-> s, qconj |-> qc,
                          args |-> [j \in 1..k |-> IF bad /\ j = k THEN LabArg(UnknownLabel) ELSE ArgOf(T(s), g[j], TRUE)]])
 
 ChAsType == CanChoose("AsType") /\ \E s \in U, dt \in {"i", "f", "c"} : (IsRealD(T(s).val) \/ dt = "c") /\ Choose([op |-> "astype", a |-> s, dtype |-> dt])
